@@ -2,6 +2,7 @@ package sim
 
 import (
 	"fmt"
+	"os"
 	"runtime/debug"
 	"testing"
 	"time"
@@ -19,10 +20,10 @@ func (s *Sim) stepBuiltinController(st Step) bool { return false }
 
 func runEngineJob(t *testing.T, job Job) *Partial { return RunJob(t, job) }
 func minimizeEngine(t *testing.T, f Failure, budget time.Duration) *Replay {
-	return Minimize(t, f, budget)
+	return Minimize(t, f, budget, os.Getenv("VERIF_ENGINE"))
 }
 func replayEngine(t *testing.T, r *Replay) (bool, uint64, string, []string) {
-	res := RunOne(t, r.spec())
+	res := engineRun(r.Engine)(t, r.spec())
 	if res.Harness != "" {
 		return false, 0, "harness: " + res.Harness, res.Trace
 	}
@@ -31,3 +32,5 @@ func replayEngine(t *testing.T, r *Replay) (bool, uint64, string, []string) {
 	}
 	return false, res.TraceHash, "", res.Trace
 }
+
+func RunUpgrade(t *testing.T, spec RunSpec) *Result { panic("upgsim not built yet") }
